@@ -67,6 +67,7 @@ type SpecFunc struct {
 	File    string
 	Line    int
 	Axiom   bool
+	Math    bool // mfunc: a state-independent function emitted once as an SMT define-fun (keeps terms linear)
 }
 
 type SpecParam struct{ Name, Type string }
@@ -106,7 +107,7 @@ func NewContractSet() *ContractSet {
 var clauseKW = map[string]bool{"requires": true, "ensures": true, "invariant": true, "decreases": true, "assigns": true,
 	"pure": true, "noreturn": true, "panics_if": true, "assume": true, "at": true, "option": true, "use": true}
 var topKW = map[string]bool{"func": true, "trusted": true, "interface": true, "loop": true, "spec": true, "pred": true,
-	"ufunc": true, "axiom": true, "lemma": true, "ghost": true, "ginv": true, "ginv_table": true}
+	"ufunc": true, "mfunc": true, "axiom": true, "lemma": true, "ghost": true, "ginv": true, "ginv_table": true}
 
 var labelRe = regexp.MustCompile(`^\[([A-Za-z0-9_.-]+)\]\s*`)
 
@@ -201,7 +202,7 @@ func (cs *ContractSet) LoadFile(path, pkgPath string) error {
 			}
 			curL = &LoopContract{Func: qualify(pkgPath, name), Ordinal: n, File: path, Line: it.line}
 			cs.Loops[curL.Func] = append(cs.Loops[curL.Func], curL)
-		case "spec", "pred", "ufunc":
+		case "spec", "pred", "ufunc", "mfunc":
 			curF, curL = nil, nil
 			sf, err := parseSpecFunc(kw, rest)
 			if err != nil {
@@ -383,5 +384,6 @@ func parseSpecFunc(kw, rest string) (*SpecFunc, error) {
 		return nil, err
 	}
 	sf.Body = e
+	sf.Math = kw == "mfunc"
 	return sf, nil
 }
